@@ -533,7 +533,7 @@ def w7(run, roles, L=None):
     S = paths.Summariser(mod, fn)
     ps = [p for p in S.paths() if not (p.end == "raise" and p.value is not None and norm(p.value) == "AssertionError")]
     inv = {norm(e.targets[0]): e for p in ps for k, e, _ in p.effects if k == "assign" and isinstance(e.value, ast.DictComp)}
-    if not inv and L is not None:
+    if L is not None and not (len(inv) == 1 and match(list(inv.values())[0].value, "{M_v: M_k for M_k, M_v in tpm_type._selected_by.items()}") is not None):
         # the arm is not looked up in an inverted copy of _selected_by: whatever the walker does instead is folded over every
         # union of the layout and every selector value (W7 in folding mode)
         return w7_fold(run, roles, L)
